@@ -55,6 +55,7 @@ fn main() {
         "C14" => {
             let mut log = Log::new(&ctx.dir); let mut im = exec::Impl::new();
             let mut or = Oracle::new("C14", "(a) shutdown requested before every poll index of scripted connections (before the first read, between requests, during the preamble, during the handler, during close); (b) histories of token drops interleaved with polls of the shutdown future, 0..3 live tokens, with counting wakers. Non-trivial: all; distinct by case");
+            exec::witness_corpus(&["C14_", "C14a_"], &mut log, &mut im, &mut or);
             runfam::c14_conn(&mut ctx, &mut log, &mut im, &mut or);
             runnerfam::c14_wg(&mut ctx, &mut log, &mut im, &mut or);
             or.count_n("corr_ops", log.nops); log.finish(); or.write(&ctx.dir);
